@@ -327,6 +327,9 @@ func c01Binary(e *core.Env) error {
 			igs[i].Enabled = true
 			igDocs = append(igDocs, igFileDoc(igs[i], "src1", start))
 		}
+		if rep%2 == 1 {
+			w.node.SetLag("/u2", 2) // one of the three backends is two blocks behind the others
+		}
 		doc := func(pgurl string) string {
 			// every other repetition: the source is declared with several URLs (the client rotates through them) and
 			// learns the head over the websocket subscription instead of polling
@@ -406,7 +409,7 @@ func c01Binary(e *core.Env) error {
 		}
 		variant := "http-poll,one-url"
 		if rep%2 == 1 {
-			variant = "ws-subscription,three-urls"
+			variant = "ws-subscription,three-urls,one-lagging"
 			if strings.Contains(strings.Join(history, " "), "subscribers=0) ") && !strings.Contains(strings.Join(history, " "), "subscribers=1)") && verdict == "ok" {
 				verdict = "the source declares a ws_url and no websocket subscription was ever opened: " + strings.Join(history, " ")
 			}
